@@ -112,7 +112,7 @@ def model_check(work, module, cfg, timeout=1800, workers=NCPU):
     """exhaustive TLC run of a bounded model; the model is independent of the code, so a failure
     here is a defect of the machinery (exit 2), never a verdict"""
     rc, out, wall = run_tlc(work, module, cfg, workers=workers, timeout=timeout)
-    if rc != 0 and "unexpected exception" in out and workers > 1:
+    if rc != 0 and "is violated" not in out and workers > 1:
         # TLC normalises shared values lazily, which occasionally races between workers
         # ("Attempted to check equality of integer ... with non-integer"); one worker is safe
         log("TLC worker race on %s/%s, repeating with one worker" % (module, cfg))
